@@ -8,7 +8,7 @@ A check is a module checks/<id>.py with run(ctx).  It uses the helpers here to
   * write evidence/<id>.json and print VIOLATION / KNOWN-FINDING lines.
 Exit codes: 0 held, 1 violation (from real-code behaviour only), 2 machinery failure.
 """
-import json, os, re, shutil, subprocess, sys, time, glob, concurrent.futures
+import json, threading, os, re, shutil, subprocess, sys, time, glob, concurrent.futures
 
 VERIF = os.path.dirname(os.path.dirname(os.path.abspath(__file__)))
 REPO = os.environ.get("VERIF_REPO", "/repo")
@@ -185,6 +185,7 @@ class Ctx:
                 e.update(env)
             r = self.sh(cmd, timeout=timeout, env=e, check=False)
             if r.returncode != 0:
+                self.crashed(r, cmd)
                 raise Broken("vh replay %s shard %d failed (rc=%d)\n%s" % (adapter, i, r.returncode, r.stdout[-3000:]))
             s = json.load(open(summ))
             s.update(ginfo)
@@ -213,7 +214,13 @@ class Ctx:
         e = {"VERIF_SEED": str(self.seed)}
         if env:
             e.update(env)
-        return self.sh([vh or self.vh, "drive", driver] + [str(a) for a in args], timeout=timeout, env=e, check=check)
+        cmd = [vh or self.vh, "drive", driver] + [str(a) for a in args]
+        r = self.sh(cmd, timeout=timeout, env=e, check=False)
+        if r.returncode != 0:
+            self.crashed(r, cmd)
+            if check:
+                raise Broken("command failed (%d): %s\n%s" % (r.returncode, " ".join(cmd)[:300], r.stdout[-4000:]))
+        return r
 
     # ------------------------------------------------------- trace validation
     def validate(self, module, cfg, traces, what="trace", timeout=600, consts=None, deque=False, count_behaviours=True):
@@ -287,7 +294,21 @@ class Ctx:
         return False
 
     # --------------------------------------------------------------- verdicts
+    def crashed(self, r, cmd):
+        """A vh process died.  If the REAL code crashed (Go panic / fatal error whose first non-runtime frame is in
+        lemochain-core, or an engine.Realf failure) that is a verdict, not a harness failure: record the violation
+        and stop the check (RealCrash).  Anything else stays Broken."""
+        kind, summary = classify_crash(r.stdout)
+        if kind == "real":
+            self.violation("the real code crashed while being driven through an honest scenario: " + summary,
+                           dict(command=" ".join(map(str, cmd)), output_tail=r.stdout[-6000:]))
+            raise RealCrash(summary)
+
     def violation(self, text, replay, tracefile=None):
+        with _vlock:
+            return self._violation(text, replay, tracefile)
+
+    def _violation(self, text, replay, tracefile=None):
         d = os.path.join(VERIF, "out", "replays")
         os.makedirs(d, exist_ok=True)
         p = os.path.join(d, "%s_%s_%d_%d.json" % (self.pid, self.tier, self.seed, len(self.violations)))
@@ -308,12 +329,12 @@ class Ctx:
             raise Broken("known_finding(%s) is not listed in known_findings.txt" % key)
         self.known_seen[key] = text or self.known[key]
 
-    def finish(self):
+    def finish(self, partial=False):
         wall = time.time() - self.t0
         cov = dict(self.cov)
         if not cov.get("rule"):
             cov.pop("rule")
-        if self.level == "model_checking" and not (cov["states"] and cov["transitions"] and cov["samples"]):
+        if self.level == "model_checking" and not partial and not (cov["states"] and cov["transitions"] and cov["samples"]):
             raise Broken("model_checking evidence needs states, transitions and samples")
         if not cov["evaluations"]:
             cov.pop("evaluations"); cov.pop("distinct_nontrivial", None)
@@ -337,6 +358,37 @@ class Ctx:
     def cleanup(self):
         if not os.environ.get("VERIF_KEEP"):
             shutil.rmtree(self.scratch, ignore_errors=True)
+
+
+class RealCrash(Exception):
+    pass
+
+
+_vlock = threading.Lock()
+_REAL = "github.com/LemoFoundationLtd/lemochain-core"
+
+
+def classify_crash(out):
+    """('real'|'harness'|None, summary) for the output of a crashed Go process."""
+    m = re.search(r"^(panic: |fatal error: )(.*)$", out, re.M)
+    if not m:
+        return None, ""
+    msg = m.group(2).strip()
+    if "REAL-CODE FAILURE" in msg:
+        return "real", msg[:600]
+    rest = out[m.end():]
+    g = re.search(r"^goroutine \d+ \[[^\]]*\]:\n((?:.+\n)+)", rest, re.M)
+    if not g:
+        return "harness", msg[:300]
+    frames = [ln for ln in g.group(1).split("\n") if ln and not ln.startswith("\t")]
+    for fr in frames:
+        if fr.startswith("verifharness/engine.Failf"):
+            return "harness", msg[:300]
+        if fr.startswith(_REAL):
+            return "real", "%s at %s" % (msg[:400], fr.split("(")[0][:200])
+        if fr.startswith("verifharness") or fr.startswith("main."):
+            return "harness", msg[:300]
+    return "harness", msg[:300]
 
 
 def load_known(pid):
@@ -374,6 +426,8 @@ def main(argv):
     try:
         mod.run(ctx)
         rc = ctx.finish()
+    except RealCrash:
+        rc = ctx.finish(partial=True)
     except Broken as ex:
         print("BROKEN property=%s: %s" % (a.pid, ex), flush=True)
         rc = 2
